@@ -3,9 +3,12 @@
 // The harness is the scheduler: one action at a time, chosen by the case (ops), executed on the real
 // Operator, and synchronised only through signals of the real code:
 //
-//	gate s item   sender s calls HandleEvent(item); the harness waits for hook "operator.align.park"
-//	              (the sender blocks on the in-progress checkpoint) or "operator.align.pass" (the sender
-//	              is past waitOnAlignment(); the hook callback holds it there until "handle s")
+//	gate s batch  sender s calls HandleEventBatch(batch) through the real rpc adapter (embedded client or connect
+//	              handler), which calls HandleEvent per event; for the first event the harness waits for hook
+//	              "operator.align.park" (the sender blocks on the in-progress checkpoint) or
+//	              "operator.align.pass" (the sender is past waitOnAlignment(); the hook callback holds it there
+//	              until "handle s"); every further event of the batch reaches its gate by itself right after the
+//	              previous one was handled and is recorded as its own gate
 //	wake s        a parked sender, after a checkpoint completion was reported, reaches "operator.align.pass"
 //	handle s      the held sender is released, its closure runs on the event loop, HandleEvent returns
 //	fire          the (manual) batch timer expires: its callback is now in flight
@@ -32,6 +35,7 @@ import (
 	"sync/atomic"
 	"time"
 
+	"connectrpc.com/connect"
 	"google.golang.org/protobuf/types/known/timestamppb"
 	"reduction.dev/reduction-protocol/handlerpb"
 	"reduction.dev/reduction/batching"
@@ -43,6 +47,7 @@ import (
 	"reduction.dev/reduction/proto/jobpb"
 	"reduction.dev/reduction/proto/snapshotpb"
 	"reduction.dev/reduction/proto/workerpb"
+	"reduction.dev/reduction/rpc"
 	"reduction.dev/reduction/util/verifhook"
 	"reduction.dev/reduction/workers/operator"
 	"verifharness/hx"
@@ -57,7 +62,7 @@ func (eng) CoqRequire(mode string) string {
 func (eng) CoqCaseType(mode string) string { return "Check_align.case" }
 func (eng) CoqRun(mode string) string      { return "Check_align.run" }
 func (eng) Rule(mode string) string {
-	return "1..4 senders, 1..5 consecutive checkpoints, batch size 0(=1)..10, batch time-out on/off; per-sender scripts of keyed events (unique ids, 3 subject keys, optional timer), per-sender increasing watermarks, barriers with increasing ids, occasional wrong-id barrier while a checkpoint is in progress; schedules drawn from the enabled actions (gate/wake/handle/fire/timeout) with five biases (uniform, eager senders, sequential, one laggard sender, late wake-ups), some cut short mid-checkpoint. Non-trivial: at least one checkpoint reported and (a sender parked, or entries pending in the batch when the last barrier arrived, or an event passed the gate before a checkpoint started and was handled during it); distinct by hash of parameters and ops."
+	return "1..4 senders, 1..5 consecutive checkpoints, batch size 0(=1)..10, batch time-out on/off; every sender delivers HandleEventBatch calls through the real rpc adapters (rpc.OperatorEmbeddedClient, or rpc.OperatorConnectHandler with a connect.Request), one outstanding call per sender, batch boundaries drawn in four styles (single-event calls, short, long, cut at barriers: barrier first / in the middle / last, watermark or event right after a barrier in the same call); per-sender scripts of keyed events (unique ids, 3 subject keys, optional timer), per-sender increasing watermarks, barriers with increasing ids, occasional wrong-id barrier (alone in its call) while a checkpoint is in progress; schedules drawn from the enabled actions (gate/wake/handle/fire/timeout) with five biases (uniform, eager senders, sequential, one laggard sender, late wake-ups) plus probe handles of senders that must be parked, some cut short mid-checkpoint. Non-trivial: at least one checkpoint reported and (a sender parked, or entries pending in the batch when the last barrier arrived, or an event passed the gate before a checkpoint started and was handled during it); distinct by hash of parameters and ops."
 }
 
 // ---------- case format ----------
@@ -71,6 +76,28 @@ type op struct {
 	Tm   uint64 `json:"tm,omitempty"`
 	T    uint64 `json:"t,omitempty"`
 	Cid  uint64 `json:"cid,omitempty"`
+	// gate only: the further events of the same HandleEventBatch call, in order (the fields above are the first event)
+	Rest []op `json:"rest,omitempty"`
+}
+
+func (o op) items() []op {
+	first := o
+	first.Rest = nil
+	return append([]op{first}, o.Rest...)
+}
+
+func (o op) event() *workerpb.Event {
+	switch o.Kind {
+	case "ev":
+		v := binary.BigEndian.AppendUint64(nil, o.ID)
+		v = binary.BigEndian.AppendUint64(v, o.Tm)
+		return &workerpb.Event{Event: &workerpb.Event_KeyedEvent{KeyedEvent: &handlerpb.KeyedEvent{Key: keyBytes(o.Key), Value: v}}}
+	case "wm":
+		return &workerpb.Event{Event: &workerpb.Event_Watermark{Watermark: &workerpb.Watermark{Timestamp: &timestamppb.Timestamp{Seconds: int64(o.T)}}}}
+	case "bar":
+		return &workerpb.Event{Event: &workerpb.Event_CheckpointBarrier{CheckpointBarrier: &workerpb.CheckpointBarrier{CheckpointId: o.Cid}}}
+	}
+	return nil
 }
 
 func (o op) itemCoq() string {
@@ -166,12 +193,23 @@ func genCase(r *hx.Rand, idx int, tier string) *hx.Case {
 	mode := make([]int, n)
 	parkG := make([]int, n)
 	inflight := make([]*gItem, n)
+	queue := make([][]*gItem, n) // rest of the sender's current batch
 	pos := make([]int, n)
 	var missing map[int]bool
 	done := 0
 	laggard := r.Intn(n)
+	bstyle := r.Intn(4) // 0: single-event batches, 1: short, 2: long, 3: batches cut right after / before barriers
 	var ops []json.RawMessage
 	emit := func(o op) { ops = append(ops, hx.Op(o)) }
+	// the sender evaluates alignSender for its next event
+	gateNext := func(s int, it *gItem) {
+		if missing != nil && !missing[s] {
+			mode[s], parkG[s] = mParked, done
+		} else {
+			mode[s] = mPassed
+		}
+		inflight[s] = it
+	}
 	for steps := 0; steps < 2000; steps++ {
 		type cand struct {
 			kind string
@@ -244,16 +282,43 @@ func genCase(r *hx.Rand, idx int, tier string) *hx.Case {
 		case "gate":
 			it := &scripts[s][pos[s]]
 			pos[s]++
-			if it.wrong && (missing == nil || !missing[s]) {
-				continue // a wrong-id barrier is only delivered while a checkpoint is in progress
+			if it.wrong {
+				// a wrong-id barrier travels alone and only while a checkpoint is in progress (its error reply aborts the batch)
+				if missing == nil || !missing[s] {
+					continue
+				}
+				emit(it.o)
+				gateNext(s, it)
+				continue
 			}
-			emit(it.o)
-			if missing != nil && !missing[s] {
-				mode[s], parkG[s] = mParked, done
-			} else {
-				mode[s] = mPassed
+			// one HandleEventBatch call: this event and some of the following ones
+			want := 1
+			switch bstyle {
+			case 1:
+				want = r.Range(1, 3)
+			case 2:
+				want = r.Range(2, 6)
+			case 3:
+				want = r.Range(1, 5)
 			}
-			inflight[s] = it
+			batch := []*gItem{it}
+			for len(batch) < want && pos[s] < len(scripts[s]) && !scripts[s][pos[s]].wrong {
+				if bstyle == 3 && batch[len(batch)-1].o.Kind == "bar" && r.Bool() {
+					break // barrier last
+				}
+				if bstyle == 3 && scripts[s][pos[s]].o.Kind == "bar" && len(batch) > 0 && r.Chance(1, 3) {
+					break // barrier first in the next batch
+				}
+				batch = append(batch, &scripts[s][pos[s]])
+				pos[s]++
+			}
+			o := it.o
+			for _, b := range batch[1:] {
+				o.Rest = append(o.Rest, b.o)
+			}
+			emit(o)
+			queue[s] = batch[1:]
+			gateNext(s, it)
 		case "probe":
 			emit(op{Act: "handle", S: s})
 		case "wake":
@@ -276,6 +341,12 @@ func genCase(r *hx.Rand, idx int, tier string) *hx.Case {
 					done++
 				}
 			}
+			// the adapter goes on with the next event of the batch: gated at once
+			if len(queue[s]) > 0 {
+				nx := queue[s][0]
+				queue[s] = queue[s][1:]
+				gateNext(s, nx)
+			}
 		}
 	}
 	if delay && r.Chance(1, 2) {
@@ -285,7 +356,8 @@ func genCase(r *hx.Rand, idx int, tier string) *hx.Case {
 	if r.Chance(1, 10) && len(ops) > 3 {
 		ops = ops[:r.Range(2, len(ops)-1)]
 	}
-	return &hx.Case{Name: fmt.Sprintf("align-%d", idx), Params: map[string]any{"mode": "c02", "n": n, "max_size": maxSize, "delay": delay, "style": style}, Ops: ops}
+	return &hx.Case{Name: fmt.Sprintf("align-%d", idx), Params: map[string]any{"mode": "c02", "n": n, "max_size": maxSize, "delay": delay, "style": style,
+		"bstyle": bstyle, "adapter": hx.Pick(r, []string{"embedded", "embedded", "connect"})}, Ops: ops}
 }
 
 func (eng) Generate(mode, tier string, r *hx.Rand) []*hx.Case {
@@ -294,7 +366,6 @@ func (eng) Generate(mode, tier string, r *hx.Rand) []*hx.Case {
 		count = 6000
 	}
 	var cs []*hx.Case
-	r = r.Fork() // hx.NewRand(seed) streams of neighbouring seeds are shifts of each other; decorrelate
 	for i := 0; i < count; i++ {
 		cs = append(cs, genCase(r.Fork(), i, tier))
 	}
@@ -333,28 +404,40 @@ func (t *manualTimer) pop() func() {
 }
 
 // events observed on the event loop during one action
+type evRec struct {
+	term string // Gallina term of Check_align.ev
+	j    any
+	ck   bool
+}
 type recorder struct {
 	mu  sync.Mutex
-	evs []string // Gallina terms of Check_align.ev
-	js  []any
+	evs []evRec
 	ck  int // checkpoint completions reported so far
 }
 
 func (r *recorder) add(term string, j any, isCkpt bool) {
 	r.mu.Lock()
-	r.evs = append(r.evs, term)
-	r.js = append(r.js, j)
+	r.evs = append(r.evs, evRec{term, j, isCkpt})
 	if isCkpt {
 		r.ck++
 	}
 	r.mu.Unlock()
 }
-func (r *recorder) take() ([]string, []any) {
+func (r *recorder) take() []evRec {
 	r.mu.Lock()
 	defer r.mu.Unlock()
-	e, j := r.evs, r.js
-	r.evs, r.js = nil, nil
-	return e, j
+	e := r.evs
+	r.evs = nil
+	return e
+}
+func evSplit(evs []evRec) (string, []any) {
+	var t []string
+	var j []any
+	for _, e := range evs {
+		t = append(t, e.term)
+		j = append(j, e.j)
+	}
+	return hx.CoqList(t, "ev"), j
 }
 func (r *recorder) completions() int { r.mu.Lock(); defer r.mu.Unlock(); return r.ck }
 
@@ -480,6 +563,35 @@ func (j *recJob) OperatorCheckpointComplete(ctx context.Context, req *snapshotpb
 	return nil
 }
 
+// which batch shapes a case exercised
+func batchTags(tags map[string]bool, its []op) {
+	if len(its) == 1 {
+		tags["batch:single"] = true
+		return
+	}
+	tags["batch:multi"] = true
+	for i, it := range its {
+		if it.Kind != "bar" {
+			continue
+		}
+		switch {
+		case i == 0:
+			tags["batch:barrier-first"] = true
+		case i == len(its)-1:
+			tags["batch:barrier-last"] = true
+		default:
+			tags["batch:barrier-middle"] = true
+		}
+		if i+1 < len(its) {
+			if its[i+1].Kind == "wm" {
+				tags["batch:watermark-after-barrier"] = true
+			} else if its[i+1].Kind == "ev" {
+				tags["batch:event-after-barrier"] = true
+			}
+		}
+	}
+}
+
 const (
 	sigPark = 1
 	sigPass = 2
@@ -487,13 +599,14 @@ const (
 
 type sender struct {
 	id      string
-	cmd     chan *workerpb.Event
+	cmd     chan []*workerpb.Event
 	ret     chan error
 	sig     chan int
 	release chan struct{}
-	mode    int // 0 idle, 1 parked, 2 passed
-	cur     op  // the item in flight
-	parkCk  int // completions seen when it parked
+	mode    int  // 0 idle, 1 parked, 2 passed
+	cur     op   // the item in flight
+	queue   []op // the events of the current HandleEventBatch call that have not reached the gate yet
+	parkCk  int  // completions seen when it parked
 }
 
 var (
@@ -570,7 +683,7 @@ func (eng) Execute(mode string, c *hx.Case) (*hx.Result, error) {
 	m := map[string]*sender{}
 	for i := range snd {
 		srIDs[i] = fmt.Sprintf("c%d-s%d", seq, i)
-		snd[i] = &sender{id: srIDs[i], cmd: make(chan *workerpb.Event), ret: make(chan error, 1), sig: make(chan int, 4), release: make(chan struct{})}
+		snd[i] = &sender{id: srIDs[i], cmd: make(chan []*workerpb.Event), ret: make(chan error, 1), sig: make(chan int, 4), release: make(chan struct{})}
 		m[srIDs[i]] = snd[i]
 	}
 	quit := make(chan struct{})
@@ -583,13 +696,23 @@ func (eng) Execute(mode string, c *hx.Case) (*hx.Result, error) {
 	}, &embedded.RecordingSink{}); err != nil {
 		return nil, err
 	}
+	var connectH *rpc.OperatorConnectHandler
+	if a, _ := c.Params["adapter"].(string); a == "connect" {
+		connectH = rpc.VerifOperatorConnectHandler(opr)
+	}
 	for _, s := range snd {
 		s := s
 		go func() {
 			for {
 				select {
-				case ev := <-s.cmd:
-					s.ret <- opr.HandleEvent(ctx, s.id, ev)
+				case batch := <-s.cmd:
+					// the production path of a source runner: proto.Operator.HandleEventBatch through the rpc adapters
+					if connectH != nil {
+						_, err := connectH.HandleEventBatch(ctx, connect.NewRequest(&workerpb.HandleEventBatchRequest{SenderId: s.id, Events: batch}))
+						s.ret <- err
+					} else {
+						s.ret <- rpc.NewOperatorEmbeddedClient(rpc.NewOperatorEmbeddedClientParams{Operator: opr, SenderID: s.id, Host: "h", ID: "op0"}).HandleEventBatch(ctx, batch)
+					}
 				case <-quit:
 					return
 				}
@@ -614,15 +737,70 @@ func (eng) Execute(mode string, c *hx.Case) (*hx.Result, error) {
 		tags["STUCK"] = true
 		stuckCases.Add(1)
 	}
-	evTerm := func() (string, []any) {
-		e, j := rec.take()
-		return hx.CoqList(e, "ev"), j
-	}
+	evTerm := func() (string, []any) { return evSplit(rec.take()) }
 	nCk, nParkAtCk, nPendAtCk, nInflightAtCk, nWrong, nTimeoutFlush, nStale, nGate := 0, 0, 0, 0, 0, 0, 0, 0
 	ckStartedAtGate := make([]bool, n) // whether a checkpoint was in progress when the sender passed its gate
 	inProgress := false
 	lastWasBarrier := false
 	aborted := false
+	// sender si signalled park / pass for the next event of its batch
+	gated := func(si int, sg int) {
+		s := snd[si]
+		if len(s.queue) == 0 {
+			return
+		}
+		s.cur, s.queue = s.queue[0], s.queue[1:]
+		if sg == sigPark {
+			s.mode, s.parkCk = 1, rec.completions()
+			obs = append(obs, fmt.Sprintf("OGate %d%%nat %s GPark", si, s.cur.itemCoq()))
+			jobs = append(jobs, map[string]any{"gate": s.cur, "res": "park"})
+			tags["gate-park"] = true
+		} else {
+			s.mode = 2
+			obs = append(obs, fmt.Sprintf("OGate %d%%nat %s GPass", si, s.cur.itemCoq()))
+			jobs = append(jobs, map[string]any{"gate": s.cur, "res": "pass"})
+			ckStartedAtGate[si] = inProgress
+		}
+		if s.cur.Kind == "bar" && s.cur.Cid >= 1000 {
+			nWrong++
+		}
+	}
+	// HandleEvent of sender si's current event returned
+	handled := func(si int, err error, evs []evRec, before int) {
+		s := snd[si]
+		et, ej := evSplit(evs)
+		obs = append(obs, fmt.Sprintf("OHandle %d%%nat %s %s", si, hx.CoqBool(err == nil), et))
+		var es any
+		if err != nil {
+			es = err.Error()
+		}
+		jobs = append(jobs, map[string]any{"handle": si, "err": es, "events": ej})
+		if inProgress && !ckStartedAtGate[si] && s.cur.Kind != "bar" {
+			nInflightAtCk++
+		}
+		completed := false
+		for _, e := range evs {
+			completed = completed || e.ck
+		}
+		if completed {
+			nCk++
+			inProgress = false
+			for _, x := range snd {
+				if x.mode == 1 {
+					nParkAtCk++
+				}
+			}
+			for _, e := range evs {
+				if !e.ck {
+					nPendAtCk++
+				}
+			}
+		} else if s.cur.Kind == "bar" && err == nil {
+			inProgress = true
+		}
+		lastWasBarrier = s.cur.Kind == "bar"
+		_ = before
+	}
 	for _, raw := range c.Ops {
 		if aborted {
 			break
@@ -663,43 +841,31 @@ func (eng) Execute(mode string, c *hx.Case) (*hx.Result, error) {
 			if s.mode != 0 {
 				continue
 			}
-			var ev *workerpb.Event
-			switch o.Kind {
-			case "ev":
-				v := binary.BigEndian.AppendUint64(nil, o.ID)
-				v = binary.BigEndian.AppendUint64(v, o.Tm)
-				ev = &workerpb.Event{Event: &workerpb.Event_KeyedEvent{KeyedEvent: &handlerpb.KeyedEvent{Key: keyBytes(o.Key), Value: v}}}
-			case "wm":
-				ev = &workerpb.Event{Event: &workerpb.Event_Watermark{Watermark: &workerpb.Watermark{Timestamp: &timestamppb.Timestamp{Seconds: int64(o.T)}}}}
-			case "bar":
-				ev = &workerpb.Event{Event: &workerpb.Event_CheckpointBarrier{CheckpointBarrier: &workerpb.CheckpointBarrier{CheckpointId: o.Cid}}}
-			default:
+			its := o.items()
+			var batch []*workerpb.Event
+			for _, it := range its {
+				if ev := it.event(); ev != nil {
+					batch = append(batch, ev)
+				}
+			}
+			if len(batch) != len(its) {
 				continue
 			}
-			s.cmd <- ev
-			s.cur = o
+			for i := range its {
+				its[i].S, its[i].Act = o.S, "gate"
+			}
+			s.queue = its
+			batchTags(tags, its)
+			s.cmd <- batch
 			nGate++
 			select {
 			case sg := <-s.sig:
-				if sg == sigPark {
-					s.mode, s.parkCk = 1, rec.completions()
-					obs = append(obs, fmt.Sprintf("OGate %d%%nat %s GPark", o.S, o.itemCoq()))
-					jobs = append(jobs, map[string]any{"gate": o, "res": "park"})
-					tags["gate-park"] = true
-				} else {
-					s.mode = 2
-					obs = append(obs, fmt.Sprintf("OGate %d%%nat %s GPass", o.S, o.itemCoq()))
-					jobs = append(jobs, map[string]any{"gate": o, "res": "pass"})
-					ckStartedAtGate[o.S] = inProgress
-				}
+				gated(o.S, sg)
 			case err := <-s.ret:
-				return nil, fmt.Errorf("HandleEvent returned before alignment: %v", err)
+				return nil, fmt.Errorf("HandleEventBatch returned before alignment: %v", err)
 			case <-time.After(watchdog):
 				stuck(1, o)
 				aborted = true
-			}
-			if o.Kind == "bar" && o.Cid >= 1000 {
-				nWrong++
 			}
 		case "wake":
 			if s.mode != 1 || s.parkCk >= rec.completions() {
@@ -721,37 +887,55 @@ func (eng) Execute(mode string, c *hx.Case) (*hx.Result, error) {
 			before := rec.completions()
 			s.release <- struct{}{}
 			select {
+			case sg := <-s.sig:
+				// the next event of the batch reached the gate, so HandleEvent of the current one returned nil
+				handled(o.S, nil, rec.take(), before)
+				gated(o.S, sg)
 			case err := <-s.ret:
+				evs := rec.take()
+				rest := s.queue
+				s.queue = nil
+				if err != nil || len(rest) == 0 {
+					handled(o.S, err, evs, before)
+					s.mode = 0
+					if len(rest) > 0 {
+						tags["batch-aborted-by-error"] = true
+					}
+					break
+				}
+				// the call returned although events of the batch never reached the gate: the implementation handled them
+				// without aligning each one. They are recorded as delivered and handled, in order; the loop's events are
+				// attributed to them: a barrier takes everything up to the next checkpoint report, other events what
+				// follows the last report.
+				tags["UNGATED-BATCH-REST"] = true
+				all := append([]op{s.cur}, rest...)
+				for i, it := range all {
+					var mine []evRec
+					hasCk := false
+					for _, e := range evs {
+						hasCk = hasCk || e.ck
+					}
+					switch {
+					case i == len(all)-1:
+						mine, evs = evs, nil
+					case it.Kind == "bar" && hasCk:
+						k := 0
+						for !evs[k].ck {
+							k++
+						}
+						mine, evs = evs[:k+1], evs[k+1:]
+					case it.Kind != "bar" && !hasCk:
+						mine, evs = evs, nil
+					}
+					if i > 0 {
+						s.cur = it
+						obs = append(obs, fmt.Sprintf("OGate %d%%nat %s GPass", o.S, it.itemCoq()))
+						jobs = append(jobs, map[string]any{"gate": it, "res": "not gated at all"})
+					}
+					handled(o.S, nil, mine, before)
+					before = rec.completions()
+				}
 				s.mode = 0
-				et, ej := evTerm()
-				obs = append(obs, fmt.Sprintf("OHandle %d%%nat %s %s", o.S, hx.CoqBool(err == nil), et))
-				var es any
-				if err != nil {
-					es = err.Error()
-				}
-				jobs = append(jobs, map[string]any{"handle": o.S, "err": es, "events": ej})
-				if inProgress && !ckStartedAtGate[o.S] && s.cur.Kind != "bar" {
-					nInflightAtCk++
-				}
-				if rec.completions() > before {
-					nCk++
-					inProgress = false
-					for _, x := range snd {
-						if x.mode == 1 {
-							nParkAtCk++
-						}
-					}
-					for _, e := range ej {
-						if mm, ok := e.(map[string]any); ok {
-							if _, ok := mm["call"]; ok {
-								nPendAtCk++
-							}
-						}
-					}
-				} else if s.cur.Kind == "bar" && err == nil {
-					inProgress = true
-				}
-				lastWasBarrier = s.cur.Kind == "bar"
 			case <-time.After(watchdog):
 				stuck(3, o)
 				aborted = true
